@@ -32,6 +32,7 @@ func init() {
 	}
 	extras["C02"] = func(c *Ctx) {
 		exactExpansion(c, "C02.P12")
+		c02ReferencedNodesIndexed(c)
 		c.Borrow("C16", "C16.X9", "C02.P14", "no parse result is kept across calls: what a path string means does not depend on which strings were parsed before (a cache keyed by a normalised spelling confuses `a.b/c.d`, one IRI, with `a.b / c.d`, a sequence)", 1, nil)
 		c02ActionsKeepOperands(c)
 		c.Borrow("C05", "C05.N1", "C02.P10", "every node of the document is a node of the index the paths are evaluated on: the input is flattened unconditionally (embedded and split node objects are hoisted and merged) before it is indexed", 5, nil)
@@ -3581,4 +3582,73 @@ func verbatimBreaker(ins ssa.Instruction) string {
 		return "url"
 	}
 	return ""
+}
+
+// c02ReferencedNodesIndexed (P15): a/b follows a from the start node and b from every node reached; a node reached is
+// looked up in the node index (find), so a node that the data only refers to - {"@id": W} as a value, W never described,
+// which flattening does not list - must be in the index as well, or the path loses it.  Decided on the stores into the
+// node index (E-sym, the same view C12.J9 judges): beside the described nodes (an element of the node list under its own
+// @id) there is a store of a bare node {"@id": id} under id, with id read from a value of a node.
+func c02ReferencedNodesIndexed(c *Ctx) {
+	r, p := c.R, c.P
+	r.Rule("C02.P15", "nodes that the data only refers to are entered in the node index (a path that passes through one keeps it)", 1)
+	pk := p.Pkg("internal/validator")
+	if pk == nil {
+		r.Unknown("C02.P15", "package", "", "internal/validator not found")
+		return
+	}
+	found := false
+	for _, f := range pk.Syntax {
+		for _, d := range f.Decls {
+			fd, ok := d.(*ast.FuncDecl)
+			if !ok || fd.Body == nil {
+				continue
+			}
+			has := false
+			ast.Inspect(fd.Body, func(n ast.Node) bool {
+				if kv, ok := n.(*ast.KeyValueExpr); ok {
+					if s, ok := constString(pk.TypesInfo, kv.Key); ok && s == "@ids" {
+						has = true
+					}
+				}
+				return true
+			})
+			if !has {
+				continue
+			}
+			found = true
+			var ids *Sym
+			type st struct {
+				target, k, v *Sym
+				conds        string
+			}
+			var stores []st
+			proto := &symWalker{Inline: samePkgInline(pk)}
+			proto.OnStore = func(w *symWalker, at ast.Node, target *Sym, k *Sym, v *Sym) {
+				if ks, ok := k.ConstString(); ok && ks == "@ids" {
+					ids = v
+					return
+				}
+				stores = append(stores, st{target, k, v, condsText(w.conds)})
+			}
+			p.SymWalk(pk, fd, proto, nil)
+			key := relOf(pk) + "." + fd.Name.Name + "#referenced-nodes"
+			bare := false
+			why := "no store of a bare node {\"@id\": id} under an id read from a value of a node was found"
+			for _, s := range stores {
+				if s.target != ids || s.v == nil || s.k == nil || s.v.K != symStruct || len(s.v.Fields) != 1 {
+					continue
+				}
+				idv, ok := s.v.Fields["@id"]
+				if !ok || idv.String() != s.k.String() || !strings.HasSuffix(s.k.String(), `["@id"]`) || !strings.Contains(s.k.String(), "[*]") {
+					continue
+				}
+				bare = true
+			}
+			r.Check(bare, "C02.P15", key, p.Pos(fd.Pos()), "a bare node is entered for every id a value refers to", why+": a path that passes through a node the data does not describe loses that node (find looks it up in the index)")
+		}
+	}
+	if !found {
+		r.Unknown("C02.P15", "indexer", "", "the function that builds the @ids index was not found")
+	}
 }
